@@ -69,6 +69,27 @@ fn alpha(cfg: &Cfg) -> Vec<Op> {
     v
 }
 
+fn alpha_deep(cfg: &Cfg) -> Vec<Op> {
+    a_altresize(cfg, &[(1, 1), (2, 2), (3, 2), (2, 3), (3, 3)])
+}
+
+/// long save / alternate-screen / resize chains
+fn deep_part(tier: Tier) -> Part<'static, Sys> {
+    Part {
+        name: "alt-resize-deep",
+        sys: &Sys,
+        cfgs: match tier {
+            Tier::Quick => cfgs(&[(2, 2), (3, 2)], &[None, Some(0)]),
+            Tier::Thorough => cfgs(&[(2, 2), (3, 2), (1, 2), (2, 3)], &[None, Some(0), Some(2)]),
+        },
+        alphabet: &alpha_deep,
+        depth: tier.pick(5, 7),
+        seconds: tier.pick(25.0, 1800.0),
+        validated: true,
+        nontrivial: Some("calls_with_changed_rows"),
+    }
+}
+
 macro_rules! parts {
     ($tier:expr) => {{
         let tier: Tier = $tier;
@@ -92,6 +113,7 @@ pub fn run(ctx: &Ctx) -> Report {
     let mut rep = Report::new();
     let p = parts!(ctx.tier);
     run_part(ctx, &mut rep, &p);
+    run_part(ctx, &mut rep, &deep_part(ctx.tier));
     rep.rule = "BFS over op histories; every feed_str/resize transition compares the view before and after the call cell by cell (char + pen) against Changes.lines; non-trivial = calls after which at least one visible row differs".into();
     rep.assumptions = vec![
         "only cells (char + pen) are compared, not soft-wrap marks (the statement says cells)".into(),
@@ -102,6 +124,9 @@ pub fn run(ctx: &Ctx) -> Report {
 
 pub fn replay(ctx: &Ctx, v: &Value) -> bool {
     let tier = if v["tier"] == "thorough" { Tier::Thorough } else { Tier::Quick };
+    if v["part"] == "alt-resize-deep" {
+        return replay_part(ctx, &deep_part(tier), v);
+    }
     let p = parts!(tier);
     replay_part(ctx, &p, v)
 }
